@@ -737,6 +737,58 @@ impl<T, S: Status, A: Clone + Allocator> RawTable<T, S, A> {
     }
 }
 
+// --- Verification hook (only with `--cfg oxidd_verif`) -----------------------
+
+/// Kind of a slot as reported by [`RawTable::verif_dump()`]
+///
+/// Verification hook, only present with `--cfg oxidd_verif`.
+#[cfg(oxidd_verif)]
+#[derive(Debug)]
+pub enum VerifSlot<'a, T> {
+    /// The slot's status is [`Status::FREE`]
+    Free,
+    /// The slot's status is [`Status::TOMBSTONE`]
+    Tombstone,
+    /// The slot is occupied: stored hash status (via
+    /// [`Status::hash_as_usize()`]) and a reference to the stored entry
+    Hash(usize, &'a T),
+    /// The slot's status is neither free, nor a tombstone, nor a hash value
+    Invalid,
+}
+
+#[cfg(oxidd_verif)]
+impl<T, S: Status, A: Clone + Allocator> RawTable<T, S, A> {
+    /// Read-only dump of the concrete table state
+    ///
+    /// Verification hook, only present with `--cfg oxidd_verif`. Calls
+    /// `visit(index, slot)` for every slot of the backing array in index order
+    /// and returns the raw values of the `(len, free)` counters. This does not
+    /// modify the table and does not rely on `len`/`free` being consistent
+    /// with the slot array.
+    pub fn verif_dump<'a>(
+        &'a self,
+        mut visit: impl FnMut(usize, VerifSlot<'a, T>),
+    ) -> (usize, usize) {
+        for (index, slot) in self.data.iter().enumerate() {
+            let status = slot.status;
+            let kind = if status == S::FREE {
+                VerifSlot::Free
+            } else if status == S::TOMBSTONE {
+                VerifSlot::Tombstone
+            } else if status.is_hash() {
+                // SAFETY: hash status means that the data is initialized
+                VerifSlot::Hash(status.hash_as_usize(), unsafe {
+                    slot.data.assume_init_ref()
+                })
+            } else {
+                VerifSlot::Invalid
+            };
+            visit(index, kind);
+        }
+        (self.len, self.free)
+    }
+}
+
 impl<T: Clone, S: Status, A: Clone + Allocator> Clone for RawTable<T, S, A> {
     #[inline]
     fn clone(&self) -> Self {
